@@ -70,6 +70,10 @@ type EntryResult struct {
 	Wall        time.Duration
 	MaxAlloc    int64
 	AssertIDs   map[string]int
+	SchedPoints int64 // thread harnesses: scheduling points passed, summed over paths
+	ThreadPaths int   // paths that ran threads
+	MaxPreempts int
+	RaceChecks  int64
 }
 
 type workItem struct {
@@ -167,6 +171,14 @@ func Explore(sh *Shared, entry *ssa.Function, entryName string, lim Limits) *Ent
 			res.Decisions += int64(len(pr.Decisions))
 			res.Unforced += int64(pr.Unforced)
 			res.Steps += pr.Steps
+			if pr.SchedPoints > 0 {
+				res.ThreadPaths++
+				res.SchedPoints += int64(pr.SchedPoints)
+				res.RaceChecks += pr.RaceChecks
+				if pr.Preempts > res.MaxPreempts {
+					res.MaxPreempts = pr.Preempts
+				}
+			}
 			if pr.AllocElems > res.MaxAlloc {
 				res.MaxAlloc = pr.AllocElems
 			}
